@@ -1100,7 +1100,9 @@ def infer_base_unit(
 
     for unit_name, power in original_units.items():
         candidates = registry.parse_unit_name(unit_name)
-        assert len(candidates) == 1
+        assert len(candidates) >= 1
+        # a defined name that also reads as prefix + unit or as a plural
+        # (dtex, rads) comes first and denotes itself
         _, base_unit, _ = candidates[0]
         d[base_unit] += power
 
